@@ -36,7 +36,7 @@ func init() {
 		// "plain": no handler error is ever injected (every block must succeed); "faults": handler errors injected
 		// (finite retryable ones relax "the block must succeed" to "same outcome as the sequential executor")
 		Profiles:  []kit.ProfileSpec{{Name: "plain", Weight: 2}, {Name: "faults", Weight: 3}},
-		QuickRuns: 2400, QuickBudgetS: 45, ThoroughRuns: 400000, ThoroughBudgetS: 660,
+		QuickRuns: 6000, QuickBudgetS: 45, ThoroughRuns: 400000, ThoroughBudgetS: 660,
 		// "identical to executing one by one ... for every goroutine schedule": a schedule under which the
 		// executing process dies is not identical to the sequential execution (which the same run performs afterwards)
 		CrashIsViolation: true,
